@@ -493,9 +493,9 @@ func TestVerifC15(t *testing.T) {
 	kit.Run(t, "C15", "unrelated", kit.N(300, 15000), func(c *kit.Case) { runHistory(c, false, np) })
 	kit.Run(t, "C15", "prefix-related", kit.N(200, 8000), func(c *kit.Case) { runHistory(c, true, np) })
 	kit.Run(t, "C15", "concurrent", kit.N(300, 10000), func(c *kit.Case) { runConcurrent(c, np/4) })
-	kit.Run(t, "C15", "repr-kinds", kit.N(260, 12000), func(c *kit.Case) { runKinds(c, np) })
-	kit.Run(t, "C15", "weak-hash", kit.N(160, 6000), func(c *kit.Case) { runWeakHash(c, np/2) })
-	kit.Run(t, "C15", "cache-cluster", kit.N(120, 4000), func(c *kit.Case) { runCluster(c, "cache.New", kit.N(1200, 3000)) })
-	kit.Run(t, "C15", "kv-store", kit.N(48, 1500), func(c *kit.Case) { runCluster(c, "kv.NewStore", kit.N(180, 400)) })
+	kit.Run(t, "C15", "repr-kinds", kit.N(260, 6000), func(c *kit.Case) { runKinds(c, np) })
+	kit.Run(t, "C15", "weak-hash", kit.N(128, 3000), func(c *kit.Case) { runWeakHash(c, 300) })
+	kit.Run(t, "C15", "cache-cluster", kit.N(160, 3000), func(c *kit.Case) { runCluster(c, "cache.New", clusterKeys(1200, 3000)) })
+	kit.Run(t, "C15", "kv-store", kit.N(64, 1000), func(c *kit.Case) { runCluster(c, "kv.NewStore", clusterKeys(180, 400)) })
 	kit.End()
 }
